@@ -651,9 +651,14 @@ func (s *ceState) clone() *ceState {
 }
 
 type ceOutcome struct {
-	h   slin
-	ret []jumpRec // jump positions handed to the caller (compileConditionalBlock)
+	h        slin
+	ret      []jumpRec // jump positions handed to the caller (compileConditionalBlock)
+	vals     []string  // the constants returned, by position ("" where the result is not a known constant)
+	bodyBase *slin     // the height at which a loop body was translated on this path
 }
+
+// valsKey tells outcomes apart that the caller can tell apart: by the constants they return.
+func (o ceOutcome) valsKey() string { return strings.Join(o.vals, "|") }
 
 type ceInterp struct {
 	p           *Program
@@ -938,7 +943,7 @@ func (ci *ceInterp) run(fd *FuncDecl) []ceOutcome {
 	finals := ci.block(fd.Decl.Body.List, []*ceState{st}, &outs, map[types.Object]bool{})
 	for _, f := range finals { // falling off the end
 		if !f.dead {
-			outs = append(outs, ceOutcome{h: f.h})
+			outs = append(outs, ceOutcome{h: f.h, bodyBase: f.bodyBase})
 		}
 	}
 	ci.cur, ci.root = saved, savedRoot
@@ -1082,7 +1087,7 @@ func (ci *ceInterp) evalCalls(n ast.Node, st *ceState, stmtVars map[types.Object
 					ci.cur = saved
 					for _, f := range finals {
 						if !f.dead {
-							outs = append(outs, ceOutcome{h: f.h})
+							outs = append(outs, ceOutcome{h: f.h, bodyBase: f.bodyBase})
 						}
 					}
 					if len(outs) > 0 {
@@ -1092,6 +1097,9 @@ func (ci *ceInterp) evalCalls(n ast.Node, st *ceState, stmtVars map[types.Object
 							}
 						}
 						st.h = outs[0].h
+						if outs[0].bodyBase != nil {
+							st.bodyBase = outs[0].bodyBase // the helper translated the loop body
+						}
 					}
 					return false
 				}
@@ -1117,6 +1125,10 @@ func (ci *ceInterp) evalCalls(n ast.Node, st *ceState, stmtVars map[types.Object
 				for _, j := range o.ret {
 					rets = append(rets, jumpRec{h: st.h.add(j.h, 1), pos: j.pos})
 				}
+			}
+			if outs[0].bodyBase != nil {
+				b := st.h.add(*outs[0].bodyBase, 1)
+				st.bodyBase = &b
 			}
 			st.h = st.h.add(h0, 1)
 			if callee.Obj.Name() == "compileBlockStatement" {
@@ -1177,7 +1189,25 @@ func (ci *ceInterp) stmt(s ast.Stmt, st *ceState, outs *[]ceOutcome, stmtVars ma
 		if st.dead {
 			return nil
 		}
-		o := ceOutcome{h: st.h, ret: rets}
+		o := ceOutcome{h: st.h, ret: rets, bodyBase: st.bodyBase}
+		anyVal := false
+		for _, re := range x.Results {
+			v := ""
+			if k := constOf(ci.info, re); k != nil && namedOf(k.Type()) != nil && namedOf(k.Type()).Obj().Name() == "Opcode" {
+				v = k.Name()
+			} else if n, ok := constInt(ci.info, re); ok {
+				v = fmt.Sprint(n)
+			} else if id, ok := ast.Unparen(re).(*ast.Ident); ok {
+				v = st.env[ci.info.ObjectOf(id)]
+			}
+			if v != "" && !isErrorType(ci.info.TypeOf(re)) {
+				anyVal = true
+			}
+			o.vals = append(o.vals, v)
+		}
+		if !anyVal {
+			o.vals = nil
+		}
 		// `return jumpPos, nil`
 		if len(x.Results) == 2 {
 			if id, ok := ast.Unparen(x.Results[0]).(*ast.Ident); ok {
@@ -1290,6 +1320,45 @@ func (ci *ceInterp) stmt(s ast.Stmt, st *ceState, outs *[]ceOutcome, stmtVars ma
 }
 
 func (ci *ceInterp) assign(x *ast.AssignStmt, st *ceState, stmtVars map[types.Object]bool) []*ceState {
+	// a, b, err := c.helper(…) where the helper's accepting paths return different constants (an opcode and the number
+	// of values it left on the stack): the caller goes on once per such path, with the constants bound
+	if len(x.Rhs) == 1 && len(x.Lhs) > 1 {
+		if call, ok := ast.Unparen(x.Rhs[0]).(*ast.CallExpr); ok {
+			if cf := calleeFunc(ci.info, call); cf != nil && cf.Pkg() == ci.pkg.Types && cf.Name() != "emit" && cf.Name() != "emitPos" && cf.Name() != "Compile" {
+				if rn := recvNamed(cf); rn != nil && rn.Obj().Name() == "Compiler" && ci.funcs[cf] != nil && st.pending == nil {
+					outs := ci.run(ci.funcs[cf])
+					distinct := map[string]bool{}
+					for _, o := range outs {
+						if o.vals != nil {
+							distinct[o.valsKey()] = true
+						}
+					}
+					if len(distinct) > 1 {
+						var res []*ceState
+						for _, o := range outs {
+							c := st.clone()
+							for _, f := range ci.floors[cf] {
+								ci.floorAt(c.h.add(f, 1), call.Pos(), cf.Name())
+							}
+							c.h = c.h.add(o.h, 1)
+							for i, l := range x.Lhs {
+								if id, ok := l.(*ast.Ident); ok && i < len(o.vals) {
+									obj := ci.info.ObjectOf(id)
+									if o.vals[i] != "" {
+										c.env[obj] = o.vals[i]
+									} else {
+										delete(c.env, obj)
+									}
+								}
+							}
+							res = append(res, c)
+						}
+						return res
+					}
+				}
+			}
+		}
+	}
 	// labels: v := len(c.instructions)
 	if len(x.Lhs) == 1 && len(x.Rhs) == 1 {
 		if call, ok := ast.Unparen(x.Rhs[0]).(*ast.CallExpr); ok && isBuiltinCall(ci.info, call, "len") && len(call.Args) == 1 {
@@ -1618,9 +1687,14 @@ func runStackEffect(c *Ctx, r *Reporter) {
 			}
 		}
 		same := true
-		for _, o := range outs[1:] {
-			if !o.h.eq(outs[0].h) {
-				same = false
+		first := map[string]slin{} // paths that return the same constants must agree; the caller tells the others apart
+		for _, o := range outs {
+			if h, ok := first[o.valsKey()]; ok {
+				if !o.h.eq(h) {
+					same = false
+				}
+			} else {
+				first[o.valsKey()] = o.h
 			}
 		}
 		switch {
